@@ -117,6 +117,15 @@ impl DhtBuilder {
     }
 }
 
+#[cfg(mainline_verif)]
+impl Dht {
+    /// Number of messages waiting in the actor's channel (lets a simulator sequence a
+    /// blocking caller thread).
+    pub fn verif_queue_len(&self) -> usize {
+        self.0.len()
+    }
+}
+
 impl Dht {
     /// Create a new Dht node.
     ///
